@@ -319,7 +319,8 @@ impl World {
     /// Summary of a certificate emitted by the code under test: content, signer bitmap, and whether it verifies.
     pub fn sum_cqc(&mut self, q: &v2::CommitQC) -> serde_json::Value {
         let valid = q.verify(self.genesis, self.epoch, &self.schedule).is_ok();
-        serde_json::json!({"vote": self.a_vote(&q.message), "signers": q.signers.0.iter().collect::<Vec<bool>>(), "valid": valid})
+        // the signer bitmap is deliberately not part of the summary (see Driver/CJson.lean: cqcSumJ)
+        serde_json::json!({"vote": self.a_vote(&q.message), "valid": valid})
     }
 
     pub fn sum_tvote(&mut self, t: &v2::ReplicaTimeout) -> serde_json::Value {
